@@ -481,8 +481,19 @@ func hasScripts(ts []*lib.Term) bool {
 // judgeC02: two instantiations of the secret payloads (public ones shared); the redacted
 // results must be identical and hold no sentinel of a secret.
 func judgeC02(rep *lib.Report, c *lib.Ctx, ln *printerLine, kase json.RawMessage) {
-	if lib.HasKind(ln.C.Ts, "ptrto") {
+	if lib.HasKind(ln.C.Ts, "ptrto", "chan", "func") {
 		return // pointer values are public but differ from one allocation to the next
+	}
+	u8 := false
+	walkTerms(ln.C.Ts, func(t *lib.Term) {
+		for _, cp := range t.Caps {
+			if cp == "U8" {
+				u8 = true
+			}
+		}
+	})
+	if u8 {
+		return // the value of a uint8-kinded model object is a slot number handed out per run: not comparable across two runs
 	}
 	pub := lib.Publicity(ln.C.Ts)
 	lib.MarkStarOperandsPublic(pub, c.Subst(ln.C.F), ln.C.Ts)
@@ -698,7 +709,7 @@ func judgeC11(rep *lib.Report, c *lib.Ctx, ln *printerLine, res *realResult, kas
 // placeholder replaced by the report %!<verb>(PANIC=<Method> method: <payload>) -- nothing lost before it,
 // nothing added after it, no second rendering of the operand.
 func judgePanicTwin(rep *lib.Report, c *lib.Ctx, ln *printerLine, res *realResult, kase json.RawMessage) {
-	if !methodPanics(ln.C.Ts) || payloadPanics(ln.C.Ts) || lib.HasKind(ln.C.Ts, "ptrto") {
+	if !methodPanics(ln.C.Ts) || payloadPanics(ln.C.Ts) || lib.HasKind(ln.C.Ts, "ptrto", "chan", "func") {
 		return
 	}
 	// both runs use contexts of their own with the same object handles (handles are numbers that can show in the output)
